@@ -10,34 +10,91 @@ import Rtcp.Proofs.CompoundParse
 namespace Rtcp.Proofs
 open Rtcp Rtcp.Impl Rtcp.Spec
 
+/-! ## small helpers -/
+
+theorem ne_panic_of_ok {ε α : Type} {x : R ε α} {a : α} (h : x = .ok a) : x ≠ .panic := by
+  rw [h]; intro e; cases e
+
+theorem map_ne_panic {ε α β : Type} (f : α → β) {x : R ε α} (h : x ≠ .panic) : f <$> x ≠ .panic := by
+  cases x with
+  | ok a => intro e; cases e
+  | err e => intro e'; cases e'
+  | panic => exact absurd rfl h
+
+theorem kind_parse_no_panic (k : Kind) (bs : Bytes) : k.parse bs ≠ .panic := by
+  obtain ⟨hsr, hrr, hbye, happ, htfb, hpfb, _, _⟩ := parsers_no_panic bs
+  cases k <;> simp only [Kind.parse]
+  · exact map_ne_panic _ happ
+  · exact map_ne_panic _ hbye
+  · exact map_ne_panic _ hrr
+  · exact map_ne_panic _ (sdes_parse_no_panic bs)
+  · exact map_ne_panic _ hsr
+  · exact map_ne_panic _ htfb
+  · exact map_ne_panic _ hpfb
+
+theorem packet_parse_no_panic (bs : Bytes) : Packet.parse bs ≠ .panic := by
+  by_cases h : bs.length < 4
+  · rw [packet_parse_short bs h]; intro e; cases e
+  · rw [packet_parse_eq bs (by omega)]
+    cases kindOfType (ptype bs) with
+    | some k => exact kind_parse_no_panic k bs
+    | none => exact map_ne_panic _ (parsers_no_panic bs).2.2.2.2.2.2.1
+
 theorem entry_points_total (bs : Bytes) :
     Compound.parse bs ≠ .panic ∧ Packet.parse bs ≠ .panic ∧
     (∀ k : Kind, k.parse bs ≠ .panic) ∧ Unknown.parse bs ≠ .panic ∧ ReportBlock.parse bs ≠ .panic ∧
     (∀ f : Fb.FciType, f.parse bs ≠ .panic) ∧
     (∀ (pt : UInt8) (min : Nat), 4 ≤ min → Custom.parse pt min bs ≠ .panic) := by
-  sorry
+  obtain ⟨_, _, _, _, _, _, hunk, hrb⟩ := parsers_no_panic bs
+  exact ⟨compound_parse_no_panic bs, packet_parse_no_panic bs, fun k => kind_parse_no_panic k bs, hunk, hrb,
+    fun f => fci_parsers_no_panic f bs, fun pt min h4 => (custom_outcome pt min h4 bs).no_panic⟩
 
 theorem parseFci_total (k : FbKind) (f : Fb.FciType) (d : Bytes) (h : Fb.parse k d = .ok d) :
     Fb.parseFci k f d ≠ .panic := by
-  sorry
+  rw [parseFci_eq k f d h]
+  split
+  · exact fci_parsers_no_panic f _
+  · intro e; cases e
 
 theorem header_accessors_total {ε : Type} (bs : Bytes) (p : Packet) (h : Packet.parse bs = .ok p) :
     (hVersion bs : R ε UInt8) ≠ .panic ∧ (hType bs : R ε UInt8) ≠ .panic ∧
     (hCount bs : R ε UInt8) ≠ .panic ∧ (hLength bs : R ε Nat) ≠ .panic := by
-  sorry
+  have h4 : 4 ≤ bs.length := (packet_parse_ok_cases bs p h).1
+  refine ⟨?_, ne_panic_of_ok (hType_ok bs h4), ne_panic_of_ok (Acc.hCount_ok bs h4),
+    ne_panic_of_ok (Acc.hLength_ok bs h4)⟩
+  simp only [hVersion, headerData, Read.slice_ok bs 0 4 ⟨by omega, h4⟩, R.ok_bind]
+  rw [Read.parseVersion_ok _ (by rw [Acc.header_length bs h4]; omega)]
+  intro e; cases e
 
 theorem sr_accessors_total {ε : Type} (bs : Bytes) (h : Sr.parse bs = .ok bs) :
     (Sr.ssrc bs : R ε UInt32) ≠ .panic ∧ (Sr.ntp bs : R ε UInt64) ≠ .panic ∧ (Sr.rtp bs : R ε UInt32) ≠ .panic ∧
     (Sr.packetCount bs : R ε UInt32) ≠ .panic ∧ (Sr.octetCount bs : R ε UInt32) ≠ .panic ∧
     (Sr.nReports bs : R ε UInt8) ≠ .panic ∧ (Sr.padding bs : R ε (Option UInt8)) ≠ .panic ∧
     (∃ rbs, (Sr.reportBlocks bs : R ε (List Bytes)) = .ok rbs ∧ rbs.length ≤ 31 ∧ ∀ rb ∈ rbs, rb.length = 24) := by
-  sorry
+  obtain ⟨h1, h2, h3, h4, h5, h6, h7, h8⟩ := sr_accessors (ε := ε) bs h
+  obtain ⟨-, hw, hc⟩ := (sr_parse_ok_iff bs bs).mp h
+  refine ⟨ne_panic_of_ok h1, ne_panic_of_ok h2, ne_panic_of_ok h3, ne_panic_of_ok h4, ne_panic_of_ok h5,
+    ne_panic_of_ok h6, ne_panic_of_ok h7, _, h8, ?_, ?_⟩
+  · have := Read.count_lt bs
+    simp only [List.length_map, List.length_range]; omega
+  · intro rb hrb
+    simp only [List.mem_map, List.mem_range] at hrb
+    obtain ⟨i, hi, rfl⟩ := hrb
+    rw [Read.range_length _ _ _ (by omega)]; omega
 
 theorem rr_accessors_total {ε : Type} (bs : Bytes) (h : Rr.parse bs = .ok bs) :
     (Rr.ssrc bs : R ε UInt32) ≠ .panic ∧ (Rr.nReports bs : R ε UInt8) ≠ .panic ∧
     (Rr.padding bs : R ε (Option UInt8)) ≠ .panic ∧
     (∃ rbs, (Rr.reportBlocks bs : R ε (List Bytes)) = .ok rbs ∧ rbs.length ≤ 31 ∧ ∀ rb ∈ rbs, rb.length = 24) := by
-  sorry
+  obtain ⟨h1, h2, h3, h4⟩ := rr_accessors (ε := ε) bs h
+  obtain ⟨-, hw, hc⟩ := (rr_parse_ok_iff bs bs).mp h
+  refine ⟨ne_panic_of_ok h1, ne_panic_of_ok h2, ne_panic_of_ok h3, _, h4, ?_, ?_⟩
+  · have := Read.count_lt bs
+    simp only [List.length_map, List.length_range]; omega
+  · intro rb hrb
+    simp only [List.mem_map, List.mem_range] at hrb
+    obtain ⟨i, hi, rfl⟩ := hrb
+    rw [Read.range_length _ _ _ (by omega)]; omega
 
 theorem rb_accessors_total {ε : Type} (bs : Bytes) (h : bs.length = 24) :
     (ReportBlock.ssrc bs : R ε UInt32) ≠ .panic ∧ (ReportBlock.fractionLost bs : R ε UInt8) ≠ .panic ∧
@@ -46,22 +103,29 @@ theorem rb_accessors_total {ε : Type} (bs : Bytes) (h : bs.length = 24) :
     (ReportBlock.interarrivalJitter bs : R ε UInt32) ≠ .panic ∧
     (ReportBlock.lastSenderReportTimestamp bs : R ε UInt32) ≠ .panic ∧
     (ReportBlock.delaySinceLastSenderReportTimestamp bs : R ε UInt32) ≠ .panic := by
-  sorry
+  obtain ⟨h1, h2, h3, h4, h5, h6, h7⟩ := rb_accessors (ε := ε) bs h
+  exact ⟨ne_panic_of_ok h1, ne_panic_of_ok h2, ne_panic_of_ok h3, ne_panic_of_ok h4, ne_panic_of_ok h5,
+    ne_panic_of_ok h6, ne_panic_of_ok h7⟩
 
 theorem app_accessors_total {ε : Type} (bs : Bytes) (h : App.parse bs = .ok bs) :
     (App.ssrc bs : R ε UInt32) ≠ .panic ∧ (App.name bs : R ε Bytes) ≠ .panic ∧
     (App.padding bs : R ε (Option UInt8)) ≠ .panic ∧ (App.data bs : R ε Slice) ≠ .panic := by
-  sorry
+  obtain ⟨h1, h2, h3, h4, _⟩ := app_accessors (ε := ε) bs h
+  exact ⟨ne_panic_of_ok h1, ne_panic_of_ok h2, ne_panic_of_ok h3, ne_panic_of_ok h4⟩
 
 theorem bye_accessors_total {ε : Type} (bs : Bytes) (h : Bye.parse bs = .ok bs) :
     (∃ l, (Bye.ssrcs bs : R ε (List UInt32)) = .ok l ∧ l.length ≤ 31) ∧
     (Bye.padding bs : R ε (Option UInt8)) ≠ .panic ∧ (Bye.reason bs : R ε (Option Slice)) ≠ .panic := by
-  sorry
+  obtain ⟨h1, h2, h3, _⟩ := bye_accessors (ε := ε) bs h
+  refine ⟨⟨_, h1, ?_⟩, ne_panic_of_ok h2, ne_panic_of_ok h3⟩
+  have := Read.count_lt bs
+  simp only [List.length_map, List.length_range]; omega
 
 theorem fb_accessors_total {ε : Type} (k : FbKind) (bs : Bytes) (h : Fb.parse k bs = .ok bs) :
     (Fb.senderSsrc bs : R ε UInt32) ≠ .panic ∧ (Fb.mediaSsrc bs : R ε UInt32) ≠ .panic ∧
     (Fb.padding bs : R ε (Option UInt8)) ≠ .panic := by
-  sorry
+  obtain ⟨h1, h2, h3⟩ := fb_accessors (ε := ε) k bs h
+  exact ⟨ne_panic_of_ok h1, ne_panic_of_ok h2, ne_panic_of_ok h3⟩
 
 theorem sdes_accessors_total {ε : Type} (bs : Bytes) (v : Sdes) (h : Sdes.parse bs = .ok v) :
     (Sdes.padding v : R ε (Option UInt8)) ≠ .panic ∧
@@ -70,25 +134,117 @@ theorem sdes_accessors_total {ε : Type} (bs : Bytes) (v : Sdes) (h : Sdes.parse
         (it.value : R ε Slice) ≠ .panic ∧
         ((it.type : R ε UInt8) = .ok 8 →
           (it.privPrefixLen : R ε UInt8) ≠ .panic ∧ (it.privPrefix : R ε Slice) ≠ .panic) := by
-  sorry
+  obtain ⟨hd, hw, _, _, hall⟩ := sdes_parse_accepts bs v h
+  obtain ⟨_, h4, _, _, hl, _⟩ := (Read.wellFramed_iff 4 202 bs).mp hw
+  refine ⟨?_, ?_⟩
+  · unfold Sdes.padding
+    rw [hd]
+    exact ne_panic_of_ok (Read.parsePadding_ok bs h4 hl)
+  · intro c hc
+    refine ⟨ne_panic_of_ok (chunk_length bs c (hall c hc)), ?_⟩
+    intro it hit
+    obtain ⟨ht, hlen, hv, hpriv⟩ := item_accessors (ε := ε) bs it (hall c hc it hit)
+    refine ⟨ne_panic_of_ok ht, ne_panic_of_ok hlen, ?_, ?_⟩
+    · by_cases h8 : u8At it.data 0 = 8
+      · exact ne_panic_of_ok (hpriv h8).2.2.1
+      · exact ne_panic_of_ok (hv h8)
+    · intro ht8
+      rw [ht] at ht8
+      have h8 : u8At it.data 0 = 8 := by
+        injection ht8 with ht8
+        unfold u8At at ht8 ⊢
+        rw [Read.toNat_toUInt8] at ht8
+        rw [ht8]; rfl
+      exact ⟨ne_panic_of_ok (hpriv h8).1, ne_panic_of_ok (hpriv h8).2.1⟩
+
+theorem words32_length : ∀ d : Bytes, 4 * (words32 d).length ≤ d.length
+  | a :: b :: c :: e :: rest => by
+    have := words32_length rest
+    simp only [words32, List.length_cons]; omega
+  | [] | [_] | [_, _] | [_, _, _] => by simp [words32]
+
+theorem words64_length : ∀ d : Bytes, 8 * (words64 d).length ≤ d.length
+  | a :: b :: c :: e :: f :: g :: h :: i :: rest => by
+    have := words64_length rest
+    simp only [words64, List.length_cons]; omega
+  | [] | [_] | [_, _] | [_, _, _] | [_, _, _, _] | [_, _, _, _, _] | [_, _, _, _, _, _]
+  | [_, _, _, _, _, _, _] => by simp [words64]
+
+theorem nackWord_decode_length (w : NackWord) : w.decode.length ≤ 17 := by
+  have := List.length_filter_le (fun k => w.blp.testBit k) (List.range 16)
+  simp only [NackWord.decode, List.length_cons, List.length_map, List.length_range] at this ⊢
+  omega
+
+theorem flatten_map_length_le {α β : Type} (f : α → List β) (n : Nat) (hf : ∀ a, (f a).length ≤ n) :
+    ∀ ws : List α, ((ws.map f).flatten).length ≤ n * ws.length
+  | [] => by simp
+  | w :: ws => by
+    have := flatten_map_length_le f n hf ws
+    have := hf w
+    simp only [List.map_cons, List.flatten_cons, List.length_append, List.length_cons, Nat.mul_succ]
+    omega
+
+theorem nackDecode_length (d : Bytes) : (nackDecode d).length ≤ 17 * (d.length / 4) := by
+  have h1 := words32_length d
+  have h2 := flatten_map_length_le (fun (x : UInt8 × UInt8 × UInt8 × UInt8) =>
+    NackWord.decode ⟨x.1.toNat * 256 + x.2.1.toNat, x.2.2.1.toNat * 256 + x.2.2.2.toNat⟩) 17
+    (fun _ => nackWord_decode_length _) (words32 d)
+  have h3 : (words32 d).length ≤ d.length / 4 := by omega
+  unfold nackDecode
+  exact Nat.le_trans h2 (Nat.mul_le_mul_left 17 h3)
 
 theorem fci_iterators_finish {ε : Type} (d : Bytes) :
     (∃ l, (Nack.entries d : R ε (List UInt16 × Bool)) = .ok (l, true) ∧ l.length ≤ 17 * (d.length / 4)) ∧
     (∃ l, (Fir.entries d : R ε (List (UInt32 × UInt8) × Bool)) = .ok (l, true) ∧ 8 * l.length ≤ d.length) ∧
     (∃ l, (Sli.lostMacroblocks d : R ε (List MacroBlockEntry × Bool)) = .ok (l, true) ∧ 4 * l.length ≤ d.length) := by
-  sorry
+  refine ⟨⟨_, nack_entries_eq d, ?_⟩, ⟨_, fir_entries_eq d, ?_⟩, ⟨_, sli_entries_eq d, ?_⟩⟩
+  · rw [List.length_map]; exact nackDecode_length d
+  · rw [List.length_map]; unfold firDecode; rw [List.length_map]; exact words64_length d
+  · rw [List.length_map]; unfold sliDecode; rw [List.length_map]; exact words32_length d
 
 theorem rpsi_accessors_total {ε : Type} (d : Bytes) (h : Rpsi.parse d = .ok d) :
     (Rpsi.payloadType d : R ε UInt8) ≠ .panic ∧ (Rpsi.bitString 0 d : R ε (Slice × Nat)) ≠ .panic := by
-  sorry
+  obtain ⟨pt, bits, s, k, _, h1, h2, _⟩ := rpsi_decode_eq (ε := ε) d h
+  exact ⟨ne_panic_of_ok h1, ne_panic_of_ok h2⟩
 
 theorem tryAs_total (bs : Bytes) (p : Packet) (k : Kind) (h : Packet.parse bs = .ok p) :
     p.tryAs k ≠ .panic := by
-  sorry
+  cases hk : p.kind? with
+  | none =>
+    cases p <;> simp only [Packet.kind?] at hk <;> try cases hk
+    rw [tryAs_unknown]
+    exact kind_parse_no_panic k _
+  | some k' =>
+    by_cases hkk : k' = k
+    · subst hkk
+      exact ne_panic_of_ok (tryAs_same p k' hk)
+    · rw [tryAs_mismatch bs p k k' h hk hkk]
+      intro e; cases e
+
+theorem flatten_length_ge (ts : List Bytes) (h : ∀ t ∈ ts, 4 ≤ t.length) :
+    4 * ts.length ≤ ts.flatten.length := by
+  induction ts with
+  | nil => simp
+  | cons t ts ih =>
+    have h1 := h t (by simp)
+    have h2 := ih (fun x hx => h x (by simp [hx]))
+    simp only [List.flatten_cons, List.length_append, List.length_cons]
+    omega
+
+theorem tiling_length (bs : Bytes) (ts : List Bytes) (h : tiling bs = some ts) : 4 * ts.length ≤ bs.length := by
+  obtain ⟨hf, ht⟩ := tiling_sound bs ts h
+  have := flatten_length_ge ts (fun t hx => (ht t hx).1)
+  rw [hf] at this
+  exact this
 
 theorem compound_iterator_total {ε : Type} (bs : Bytes) (c : Compound) (h : Compound.parse bs = .ok c) :
     ∃ items c', (Compound.collect (bs.length / 4 + 2) c [] : R ε _) = .ok (items, true, c') ∧
       4 * items.length ≤ bs.length ∧ c'.isOver = true ∧ (Compound.next c' : R ε _) = .ok (none, c') := by
-  sorry
+  obtain ⟨rfl, hne, hs⟩ := (compound_parse_ok_iff bs c).mp h
+  obtain ⟨ts, ht⟩ := Option.isSome_iff_exists.mp hs
+  have hlen := tiling_length bs ts ht
+  obtain ⟨items, c', e1, _, e3, e4⟩ := compound_iter (ε := ε) bs ts hne ht
+    (fun t _ => packet_parse_no_panic t) (bs.length / 4 + 2) (by omega)
+  exact ⟨items, c', e1, by omega, e4, compound_fused c' e4⟩
 
 end Rtcp.Proofs
